@@ -1287,10 +1287,20 @@ func (e *Engine) builtinAppend(st *State, args []Value, cc *ssa.CallCommon) (Val
 		el = append(el, a.E[s.Off.Val:s.Off.Val+s.Len.Val]...)
 	}
 	el = append(el, srcVals...)
+	n := e.k64(uint64(len(el)))
+	// Capacity after growth: Go doubles small slices (then rounds to a size class). Spare capacity is
+	// what makes two appends to the same slice alias, so composite slices grow by doubling here; the
+	// size-class rounding is not modelled.
+	capN := uint64(len(el))
+	if s.Cap.IsConst() && 2*s.Cap.Val > capN && s.Cap.Val < 256 {
+		capN = 2 * s.Cap.Val
+	}
+	for uint64(len(el)) < capN {
+		el = append(el, e.Zero(elemT))
+	}
 	st.dirty = true
 	st.heap[id] = ArrV{E: el}
-	n := e.k64(uint64(len(el)))
-	return SliceV{Base: Ptr{Obj: id}, Off: e.k64(0), Len: n, Cap: n}, true
+	return SliceV{Base: Ptr{Obj: id}, Off: e.k64(0), Len: n, Cap: e.k64(capN)}, true
 }
 
 var _ = strings.HasPrefix
